@@ -233,12 +233,12 @@ reg(C03("C03"))
 
 
 class C05(TreeCheck):
-    obligations = [("main", "TieKinds", "tie_kinds"), ("main", "L2CCfull", "parseFull_contain"), ("main", "L2Kind2", "parseBlocks_kinds"), ("main", "NoUnpFull", "C05_noUnparsed"),
+    obligations = [("main", "GramInline", "parseFull_gramI_partial"), ("main", "GramInline", "parseFull_noLinkInLink"), ("main", "GramInline", "parseFull_kinds"), ("main", "GramInline", "parseFull_gramI_titleDest_partial"), ("main", "GIB", "parseBlocks_noMixed"), ("main", "TieKinds", "tie_kinds"), ("main", "L2CCfull", "parseFull_contain"), ("main", "L2Kind2", "parseBlocks_kinds"), ("main", "NoUnpFull", "C05_noUnparsed"),
                    ("main", "Clos12full", "C12_closure"), ("main", "Rec16", "ordered_number_range"),
                    ("main", "GramBlocks", "parseBlocks_gramBlocks"), ("main", "GramBlocks", "parseFull_gramBlocks")]
     proj = staticmethod(proj_kinds)
     what = "node kinds and accessor values"
-    assumptions = ["partial: proved for every input: canContain closure, entry kinds per block kind, no Unparsed node, reference closure, item number range, and all block-level clauses of the grammar (parseFull_gramBlocks: every list item starts with exactly one marker, markers and thematic breaks are childless, a definition is [label; destination] or [label; destination; title], list/item agreement on ordered and on tight, heading levels 1-6 / 1-2); the inline-level clauses (phrasing content, link tails, no link in a link) are decided by the correspondence plus the grammar oracle and the formal statement evaluated on the implementation's trees"]
+    assumptions = ["partial: proved for every input: canContain closure, entry kinds per block kind, no Unparsed node, reference closure, item number range, and all block-level clauses of the grammar (parseFull_gramBlocks: every list item starts with exactly one marker, markers and thematic breaks are childless, a definition is [label; destination] or [label; destination; title], list/item agreement on ordered and on tight, heading levels 1-6 / 1-2); the inline-level clauses are proved for every input too (parseFull_gramI_partial: in every paragraph and heading only phrasing content; link/image tails nothing | [label] | [destination] | [destination][title]; reference links without destination/title; children of code spans, link parts, autolinks and HTML tags of the right kinds; childless leaves; no Unparsed node; parseFull_noLinkInLink: no link inside a link) except that the tail clause admits a lone [title]: that a title always follows a destination is proved under the explicit, satisfiable side condition titleNeedsDestDoc (fuel sufficiency of the link scanner), parseFull_gramI_titleDest_partial; that clause and the accessor agreement are otherwise decided by the correspondence, the grammar oracle and the formal statement evaluated on the implementation's trees"]
 
     def jobs(self, seed, tier):
         js = TreeCheck.jobs(self, seed, tier)
@@ -251,11 +251,11 @@ reg(C05("C05"))
 
 
 class C13(TreeCheck):
-    obligations = [("main", "ShapesCS", "parseCodeSpan_shape"), ("main", "ShapesA", "parseAutolink_shape"), ("main", "ShapesA", "parseCharacterEscape_shape"), ("main", "ShapesA", "parseHardLineBreakSpace_hard_iff"), ("main", "ShapesHT", "parseHTMLTag_shape"), ("main", "ShapesA", "parseDelimiterRun_shape"), ("main", "ShapesComp3", "parseInlines_codespan_shapes_partial"), ("main", "Shapes", "hardbreak_line_shape"), ("main", "Shapes", "codespan_shapes_statement_false"), ("main", "Rec16", "parseListMarker_sound"), ("main", "Rec17", "parseCodeFence_sound"), ("recog", "ATXProof", "parseATXHeading_correct"),
+    obligations = [("main", "BlockShapes", "parseBlocks_block_shapes_partial"), ("main", "BlockShapes", "parseFull_block_shapes_partial"), ("main", "BlockShapes", "parseFull_block_shapes_prefill_partial"), ("main", "BlockShapesNul", "parseFull_block_shapes_aligned_partial"), ("main", "ShapesCS", "parseCodeSpan_shape"), ("main", "ShapesA", "parseAutolink_shape"), ("main", "ShapesA", "parseCharacterEscape_shape"), ("main", "ShapesA", "parseHardLineBreakSpace_hard_iff"), ("main", "ShapesHT", "parseHTMLTag_shape"), ("main", "ShapesA", "parseDelimiterRun_shape"), ("main", "ShapesComp3", "parseInlines_codespan_shapes_partial"), ("main", "Shapes", "hardbreak_line_shape"), ("main", "Shapes", "codespan_shapes_statement_false"), ("main", "Rec16", "parseListMarker_sound"), ("main", "Rec17", "parseCodeFence_sound"), ("recog", "ATXProof", "parseATXHeading_correct"),
                    ("main", "Rec15", "parseSetext_correct")]
     proj = staticmethod(proj_kindspans)
     what = "(kind, span) of every node"
-    assumptions = ["partial: scanner-level shape theorems for every kind of leaf-like construct (parseCodeSpan_shape: equal backtick runs; parseAutolink_shape, parseHTMLTag_shape: '<...>'; parseCharacterEscape_shape: '&...;'; parseHardLineBreakSpace_hard_iff; parseDelimiterRun_shape: copies of one of * or _) and, end to end through the whole inline parser, every CodeSpanKind node of parseInlines has the code-span shape for containers satisfying the executable condition bikOK (parseInlines_codespan_shapes_partial; without a condition the statement is false for arbitrary entry lists, witness proved); the recognizer theorems give the shape at creation for list markers, fences, ATX and setext lines; transport of the remaining shapes through the parser is decided by the correspondence, the shape oracle and the formal statement evaluated on the implementation's trees"]
+    assumptions = ["block level: for every input without NUL bytes, every block node of every root has a valid span and the shape of its construct (list marker = bullet or 1-9 digits + '.'/')'; ATX heading starts with exactly its level of '#'; setext heading ends in its underline character; fenced code starts with its fence; block quote starts with '>') (parseFull_block_shapes_partial); for every input the same holds of the root's text before NUL filling (…_prefill_partial) and of the Source itself whenever the cut positions do not split a padded NUL (…_aligned_partial); that alignment for inputs with NUL is the open obligation shared with C01", "partial: scanner-level shape theorems for every kind of leaf-like construct (parseCodeSpan_shape: equal backtick runs; parseAutolink_shape, parseHTMLTag_shape: '<...>'; parseCharacterEscape_shape: '&...;'; parseHardLineBreakSpace_hard_iff; parseDelimiterRun_shape: copies of one of * or _) and, end to end through the whole inline parser, every CodeSpanKind node of parseInlines has the code-span shape for containers satisfying the executable condition bikOK (parseInlines_codespan_shapes_partial; without a condition the statement is false for arbitrary entry lists, witness proved); the recognizer theorems give the shape at creation for list markers, fences, ATX and setext lines; transport of the remaining shapes through the parser is decided by the correspondence, the shape oracle and the formal statement evaluated on the implementation's trees"]
 
 
 reg(C13("C13"))
